@@ -67,7 +67,7 @@ class Raised:
         return 'Raised(%s: %s)' % (self.type, str(self.exc)[:80])
 
 
-ENGINE_EXC_NAMES = ('EngineError', 'Unsupported', 'Infeasible', 'PathLimit', 'PathAbort', 'OutOfDomain')
+ENGINE_EXC_NAMES = ('EngineError', 'Unsupported', 'Infeasible', 'PathLimit', 'PathAbort', 'OutOfDomain', 'NormalFormLimit', 'JobTimeout')
 
 
 def is_engine_exc(e):
